@@ -612,6 +612,17 @@ let () =
             | None -> ()
           done) [false; true]) [4; 8]) [false; true]) [2; 3; 4; 5]
       done;
+      (* more than 127 distinct abbreviations: two-byte codes in front of referenced entries *)
+      List.iter (fun v -> List.iter (fun f -> List.iter (fun be ->
+        let nn = 135 + rand_int r 10 in
+        let ops = [ U ((v, f, 8), None) ]
+          @ List.init nn (fun i -> E (0, (if i mod 7 = 3 then 1 + rand_int r i else 0), 0x100 + i))
+          @ List.concat (List.init nn (fun i ->
+              (if i mod 3 = 0 then [ Set (0, i + 1, 0x3a05, Ud (Z.of_int i)) ] else [])
+              @ (if i mod 5 = 0 then [ Set (0, i + 1, 0x49, Ur (0, 1 + rand_int r nn)) ] else [])
+              @ (if i mod 11 = 0 then [ Sib (0, i + 1, true) ] else [])))
+          @ [ Set (0, 0, 0x49, Ur (0, nn)); Sib (0, 0, true) ] in
+        case be 0 ops) [false; true]) [false; true]) [2; 4; 5];
       (* odd encodings *)
       for k = 0 to kinds - 1 do
         List.iter (fun e -> match directed r k e with Some ops -> case false 0 ops | None -> ())
